@@ -158,6 +158,9 @@ func Run(tier string, seed uint64, modelPath, repo string, out *res.Result) erro
 	if tier == "thorough" {
 		nDocs, metaEvery, rerunBudget = 150000, 6, 2400*time.Second
 	}
+	if os.Getenv("WRH_C01_NORERUN") != "" {
+		rerunBudget = 0
+	}
 	if s := os.Getenv("WRH_C01_DOCS"); s != "" {
 		if n, err := strconv.Atoi(s); err == nil {
 			nDocs = n
@@ -195,6 +198,15 @@ func Run(tier string, seed uint64, modelPath, repo string, out *res.Result) erro
 		cases[i] = c
 	}
 	outs := pool.All(cases, nil)
+	if dir := os.Getenv("WRH_C01_DUMP"); dir != "" {
+		os.MkdirAll(dir, 0o755)
+		for i, o := range outs {
+			if o.Status != "ok" && o.Status != "error" {
+				b, _ := json.Marshal(map[string]interface{}{"case": cases[i], "out": o})
+				os.WriteFile(filepath.Join(dir, fmt.Sprintf("%s-%05d.json", o.Status, i)), b, 0o644)
+			}
+		}
+	}
 
 	var fails []failure
 	var timeouts []int
